@@ -12,6 +12,8 @@ pub(crate) mod tests;
 mod transaction_hashes_process;
 mod transactions_process;
 
+#[cfg(feature = "verif-hooks")]
+pub use self::verif_hooks::{verif_block_transactions_verify, verif_compact_block_verify};
 use self::block_proposal_process::BlockProposalProcess;
 use self::block_transactions_process::BlockTransactionsProcess;
 pub(crate) use self::compact_block_process::CompactBlockProcess;
@@ -954,5 +956,29 @@ impl CKBProtocolHandler for Relayer {
             token,
             Instant::now().saturating_duration_since(start_time)
         );
+    }
+}
+
+/// verif-hooks: thin pub wrappers around the crate-private compact block
+/// verifiers (add-only; compiled only with the feature)
+#[cfg(feature = "verif-hooks")]
+mod verif_hooks {
+    use super::block_transactions_verifier::BlockTransactionsVerifier;
+    use super::compact_block_verifier::CompactBlockVerifier;
+    use crate::Status;
+    use ckb_types::{core, packed};
+
+    /// `CompactBlockVerifier::verify`
+    pub fn verif_compact_block_verify(block: &packed::CompactBlock) -> Status {
+        CompactBlockVerifier::verify(block)
+    }
+
+    /// `BlockTransactionsVerifier::verify`
+    pub fn verif_block_transactions_verify(
+        block: &packed::CompactBlock,
+        indexes: &[u32],
+        transactions: &[core::TransactionView],
+    ) -> Status {
+        BlockTransactionsVerifier::verify(block, indexes, transactions)
     }
 }
